@@ -47,6 +47,7 @@ pub fn run(
         }
 
         let mut best_candidate: Option<(Vec<EdgeTraversal>, Cost)> = None;
+        let accepted_before = accepted.len();
 
         // build alternates off of most recently-picked accepted result
         let prev_accepted_path =
@@ -134,6 +135,12 @@ pub fn run(
             if let Some((ref best_path, _)) = best_candidate {
                 accepted.push(best_path.clone());
             }
+        }
+
+        // no spur search of this pass produced an acceptable alternative: the
+        // alternatives are exhausted, and another pass would find the same nothing
+        if accepted.len() == accepted_before {
+            break;
         }
     }
 
